@@ -18,6 +18,7 @@ package localstore
 
 import (
 	"errors"
+	"fmt"
 	"time"
 
 	"github.com/gauss-project/aurorafs/pkg/boson"
@@ -149,6 +150,7 @@ func (db *DB) collectGarbage() (collectedCount uint64, done bool, err error) {
 
 	currentCollectedCount := uint64(0)
 	recycledItems := make([]shed.Item, 0)
+	skippedDirty := false
 
 	// without batchMu lock, call chunkinfo to remove chunks
 	evicted := make(map[string]struct{}, len(candidates))
@@ -210,16 +212,21 @@ func (db *DB) collectGarbage() (collectedCount uint64, done bool, err error) {
 				}
 			}
 
-			currentCollectedCount += gcCount
 			db.logger.Infof("localstore: collect garbage: file %s(%d) has removed", addr, gcCount)
 
 			return nil
 		})
 		if err != nil {
 			if errors.Is(err, dirtyGarbageNoHandle) {
+				skippedDirty = true
 				continue
 			}
 			if errors.Is(err, storage.ErrNotFound) {
+				// the file can no longer be enumerated (part of its
+				// tree is missing). Its entry is dropped: left in place
+				// it would be selected first by every later run and
+				// nothing else would ever be collected.
+				recycledItems = append(recycledItems, item)
 				continue
 			}
 
@@ -239,6 +246,10 @@ func (db *DB) collectGarbage() (collectedCount uint64, done bool, err error) {
 		return 0, false, err
 	}
 
+	gcKey := func(item shed.Item) string {
+		return fmt.Sprintf("%d|%d|%x", item.AccessTimestamp, item.BinID, item.Address)
+	}
+	recycled := make(map[string]struct{}, len(recycledItems))
 	for _, item := range recycledItems {
 		// delete from retrieve, gc; a pinned root chunk stays stored
 		pinned, err := db.pinIndex.Has(item)
@@ -259,22 +270,30 @@ func (db *DB) collectGarbage() (collectedCount uint64, done bool, err error) {
 		if err != nil {
 			return 0, false, err
 		}
-
-		currentCollectedCount++
+		recycled[gcKey(item)] = struct{}{}
 	}
 
-	// if gcIndex missing, we should set gcSize to zero.
-	if len(recycledItems) == 0 {
-		// force gc clean
-		currentCollectedCount = gcSize
-	}
-
+	// recount: gcSize is the total of the counters of the files that
+	// stay in the gc index (the same value New computes on startup). It
+	// does not depend on how many chunks were physically removed (shared
+	// and pinned chunks stay) nor on counters changed while gc was running.
 	currentSize := uint64(0)
-	if currentCollectedCount <= gcSize {
-		currentSize = gcSize - currentCollectedCount
+	err = db.gcIndex.Iterate(func(item shed.Item) (stop bool, err error) {
+		if _, ok := recycled[gcKey(item)]; !ok {
+			currentSize += item.GCounter
+		}
+		return false, nil
+	}, nil)
+	if err != nil {
+		return 0, false, err
+	}
+	if gcSize > currentSize {
+		currentCollectedCount = gcSize - currentSize
 	}
 
-	if currentSize > target {
+	// another run is needed if the target is not reached and this run
+	// either made progress or skipped files that were in use
+	if currentSize > target && (len(recycledItems) > 0 || skippedDirty) {
 		done = false
 	}
 
